@@ -503,7 +503,10 @@ func (c *Ctx) finish(verifDir string, seed int, t0 time.Time, extra map[string]i
 		for _, m := range c.Machine {
 			fmt.Println("MACHINERY-FAILURE:", m)
 		}
-		return 2
+		if len(viol) == 0 {
+			return 2
+		}
+		// some obligations could not be decided, others are decided and violated: the violation stands
 	}
 	if len(viol) > 0 {
 		vp := filepath.Join(verifDir, "evidence", c.Property+".violations.json")
